@@ -544,6 +544,9 @@ fn identity_catalogue() -> Vec<(&'static str, bool)> {
         ("f := (p: int) -> int { return p; }; h := (q: (int) -> int) -> any { return (q == f, q != f, f == q); }; h((p: int) -> int { return p; })", false),
         ("s := struct{f := () -> int { return 1; }, c := mut 0}; t := s; (s == t, s != t, t.f == s.f)", true),
         ("mk := () -> struct{f: () -> int} { return struct{f := () -> int { return 1; }}; }; (mk() == mk(), mk() != mk(), mk().f == mk().f)", false),
+        ("is := (is: mut int, other: mut int) -> any { return (is == other, is != other, other == is); }; c := mut 1; is(c, c)", true),
+        ("is := (is: mut int, other: mut int) -> any { return (is == other, is != other, other == is); }; c := mut 1; is(c, mut 1)", false),
+        ("is := (is: any, other: any) -> any { return (is == other, is != other, other == is); }; f := () -> int { return 1; }; is(f, f)", true),
     ]
 }
 
@@ -630,6 +633,9 @@ impl Property for C19Prop {
             (format!("{PRELUDE}cmp := (l: any, r: any) -> any {{ return (l == r, l != r, r == l); }}; cmp({ex}, {ey})"), equal, "runtime-triple"),
             (format!("{PRELUDE}neg := (l: any, r: any) -> any {{ return (!(l != r), !(l == r), !(!(l == r))); }}; neg({ex}, {ey})"), equal, "runtime-triple"),
             (format!("{PRELUDE}(!(({ex}) != ({ey})), !(({ex}) == ({ey})), !(!(({ey}) == ({ex}))))"), equal, "runtime-triple"),
+            // a comparing function whose first parameter is spelled like the function itself (the parameter wins)
+            (format!("{PRELUDE}eqself := (eqself: any, other: any) -> any {{ return (eqself == other, eqself != other, other == eqself); }}; eqself({ex}, {ey})"), equal, "runtime-triple"),
+            (format!("{PRELUDE}pick := (pick: any, other: any) -> any {{ m := match pick {{ (other) => true, => false, }}; return (m, !m, other == pick); }}; pick({ex}, {ey})"), equal, "runtime-triple"),
             // the negation law written as chains (comparisons are one level, grouped left to right):
             // `l == r != false` is `(l == r) != false`
             (format!("{PRELUDE}l := idf({ex}); r := idf({ey}); (l == r != false, l != r == true, l == r == true)"), equal, "runtime-triple"),
@@ -711,6 +717,36 @@ pub fn run(session: &Session) -> i32 {
     }
     for expr in ["std.len", "std.convert.to_string", "std.convert.parse_int", "std.string.trim", "std.operators.int_sum", "std.operators.float_product", "std.math", "std.convert", "std", "[std.len, std.string.trim]", "struct{f := std.len}"] {
         cases.push(json!({"kind": "identity-threads", "expr": expr}));
+    }
+    // a construct that binds the name of an object locally, between two uses of the object: afterwards
+    // the name denotes the object again
+    let binders = [
+        "n := match 5 { v: int => v + 1, => 0, }",
+        "match 5 { v: int => { v }, }",
+        "if v: int = 5 { v + 1 }",
+        "n := if v: int = 5 { v } else { 0 }",
+        "if v: [int] = [7] { }",
+        "k := mut 0; while v: int = src(k) { k += 1; }",
+        "for v in [1, 2]~ { v + 1 }",
+        "{ v := 5; v + 1 }",
+        "n := { v := 5; v }",
+        "if true { v := 5; }",
+        "loop { v := 5; break; }",
+        "g := (v: int) -> int { return v + 1; }; g(1)",
+        "m := mod { v := 5; }",
+        "(() { v := 5; })()",
+        "[1]~ @ (v: int) -> int { return v; } $]",
+        "{ (v, w) := (5, 6); }",
+        "[1, 2]~ $ 0 (v: int, w: int) -> int { return v + w; }",
+        "eqvw := (v: any, w: any) -> bool { return v == w; }; eqvw(1, 2)",
+    ];
+    for c in 0..CTORS.len() {
+        for b in binders {
+            let src = "src := (k: mut int) -> int|string { if *k < 2 { return *k; } return \"end\"; }; ";
+            cases.push(json!({"kind": "identity", "program": format!("{src}v := {}; d := v; {b}; (v == d, v != d, d == v)", CTORS[c]), "same": true}));
+            cases.push(json!({"kind": "identity", "program": format!("{src}h := () -> any {{ v := {}; d := v; {b}; return (v == d, v != d, d == v); }}; h()", CTORS[c]), "same": true}));
+            cases.push(json!({"kind": "identity", "program": format!("{src}v := {}; cs := [v]; {b}; (cs[0] == v, cs[0] != v, v == cs[0])", CTORS[c]), "same": true}));
+        }
     }
     for (inputs, same) in IDENTITY_SESSIONS {
         cases.push(json!({"kind": "identity-session", "inputs": inputs, "same": same}));
